@@ -42,11 +42,13 @@ def generate(seed, stratum, tier):
   first = common.draw_sched(rng, grans=('line', 'opcode'), weights=(2, 1), expected_steps=400, victims=['consumer'])
   gran = first.pop('gran')
   then = {'policy': 'rr', 'quantum': rng.randrange(1, 8)} if rng.random() < 0.6 else {'policy': 'sticky', 's': 0.0}
-  return {'objects': objs, 'queue_size': cap, 'clients': clients,
+  return {'objects': objs, 'queue_size': cap, 'clients': clients, 'stalls': common.draw_stalls(rng, 400, rate=0.3),
           'sched': {'gran': gran, 'policy': 'phased', 'first': first, 'switch_at': rng.choice([50, 150, 300, 600]), 'then': then}}
 
 
 def shrink_candidates(sc):
+  if sc.get('stalls'):
+    yield dict(sc, stalls={})
   cl = sc['clients']
   if len(cl) > 2:
     for i in range(1, len(cl)):
